@@ -163,7 +163,7 @@ Section ChanInvariant.
     - (* OPub *) cbn. apply AllChans_pump_topic; [intros; apply P_receive; assumption|].
       apply AllChans_upd_topic; [apply AllChans_ensure_topic, H|].
       intros tp Htp. cbn. rewrite fold_topic_put_chans. exact Htp.
-    - (* OConnect *) cbn. apply AllChans_clients, H.
+    - (* OConnect *) destruct (find_client s k); cbn; [exact H|]. apply AllChans_clients, H.
     - (* OSub *)
       destruct (find_client s k) as [kl|]; cbn; [|exact H].
       destruct ((k_state kl =? st_init) && k_alive kl); cbn; [|exact H].
